@@ -2,6 +2,7 @@ package main
 
 import (
 	"fmt"
+	"go/token"
 	"go/types"
 	"sort"
 	"strings"
@@ -57,6 +58,108 @@ func sharedSafeGlobalType(t types.Type) bool {
 		}
 	}
 	return false
+}
+
+// deeplyImmutable: values of type t cannot be changed through a copy of them (no pointers, maps, slices, channels
+// or interfaces inside): basic types, strings, functions, and structs / arrays of such.
+func deeplyImmutable(t types.Type, depth int) bool {
+	if depth > 4 {
+		return false
+	}
+	switch u := t.Underlying().(type) {
+	case *types.Basic, *types.Signature:
+		return true
+	case *types.Struct:
+		for i := 0; i < u.NumFields(); i++ {
+			if !deeplyImmutable(u.Field(i).Type(), depth+1) {
+				return false
+			}
+		}
+		return true
+	case *types.Array:
+		return deeplyImmutable(u.Elem(), depth+1)
+	}
+	return false
+}
+
+func isInitFunc(fn *ssa.Function) bool {
+	return fn.Parent() == nil && (fn.Synthetic == "package initializer" || fn.Name() == "init" || strings.HasPrefix(fn.Name(), "init#"))
+}
+
+// readOnlyTable: the package-level variable g is a lookup table: a map, slice or array of deeply immutable
+// elements that is filled by the package initialiser and, in every other function of the module, only ever loaded
+// and then looked up, indexed, ranged over or measured - never stored to, updated, re-sliced, appended to, handed to
+// a call or kept. Concurrent reads of such a table need no synchronisation.
+func (cx *Ctx) readOnlyTable(g *ssa.Global) (bool, string) {
+	et := g.Type().(*types.Pointer).Elem()
+	switch u := et.Underlying().(type) {
+	case *types.Map:
+		if !deeplyImmutable(u.Elem(), 0) || !deeplyImmutable(u.Key(), 0) {
+			return false, "its elements can be modified through the table"
+		}
+	case *types.Slice:
+		if !deeplyImmutable(u.Elem(), 0) {
+			return false, "its elements can be modified through the table"
+		}
+	case *types.Array:
+		if !deeplyImmutable(u.Elem(), 0) {
+			return false, "its elements can be modified through the table"
+		}
+	default:
+		return false, "not a table"
+	}
+	onlyLoads := func(v ssa.Value) bool {
+		for _, ref := range nonDebugRefs(v) {
+			if u, ok := ref.(*ssa.UnOp); !ok || u.Op != token.MUL {
+				return false
+			}
+		}
+		return true
+	}
+	for _, fn := range cx.W.Funcs {
+		if isInitFunc(fn) {
+			continue
+		}
+		for _, b := range fn.Blocks {
+			for _, in := range b.Instrs {
+				var ops [12]*ssa.Value
+				uses := false
+				for _, op := range in.Operands(ops[:0]) {
+					if op != nil && *op == ssa.Value(g) {
+						uses = true
+					}
+				}
+				if !uses {
+					continue
+				}
+				ld, ok := in.(*ssa.UnOp)
+				if !ok || ld.Op != token.MUL {
+					return false, "it is written or its address is taken at " + cx.W.InstrPos(in)
+				}
+				for _, ref := range nonDebugRefs(ld) {
+					switch x := ref.(type) {
+					case *ssa.Lookup:
+						if x.X != ssa.Value(ld) {
+							return false, "it is used as a key at " + cx.W.InstrPos(x)
+						}
+					case *ssa.Range:
+					case *ssa.Index:
+					case *ssa.IndexAddr:
+						if !onlyLoads(x) {
+							return false, "an element is written or its address kept at " + cx.W.InstrPos(x)
+						}
+					case *ssa.Call:
+						if bi, isB := x.Call.Value.(*ssa.Builtin); !isB || (bi.Name() != "len" && bi.Name() != "cap") {
+							return false, "it is handed to a call at " + cx.W.InstrPos(x)
+						}
+					default:
+						return false, "it is used in a way that may modify or keep it at " + cx.W.InstrPos(ref)
+					}
+				}
+			}
+		}
+	}
+	return true, ""
 }
 
 func checkC15(cx *Ctx, r *Report) {
@@ -289,6 +392,12 @@ func checkC15(cx *Ctx, r *Report) {
 					}
 					seenG[k] = true
 					et := g.Type().(*types.Pointer).Elem()
+					if !sharedSafeGlobalType(et) {
+						if ok, _ := cx.readOnlyTable(g); ok {
+							r.Ok("R-GLOBAL", k, w.InstrPos(in), "lookup table of immutable elements ("+et.String()+"): filled by the package initialiser, only looked up / ranged over everywhere else in the module")
+							continue
+						}
+					}
 					r.Check(sharedSafeGlobalType(et), "R-GLOBAL", k, w.InstrPos(in), "immutable value or concurrency-safe object ("+et.String()+")", "per-request code uses the package-level variable "+k+" of type "+et.String()+", a mutable object shared by all requests without synchronisation")
 				}
 			}
